@@ -726,11 +726,11 @@ VH_CMD(c45_bip32)
             // public derivation from the *parent's* neutered key
             CExtPubKey parent_pub = xprv.Neuter();
             CExtPubKey child_pub;
-            const bool pd = parent_pub.Derive(child_pub, idx);
             if (idx & H) {
+                // (CPubKey::Derive asserts on hardened indices: public derivation of a hardened child is not callable)
                 vh::log().obs("hardened_steps");
-                if (pd) vh::log().violation("bip32-public-hardened", "public derivation of a hardened child succeeded", vh::J().u("index", idx));
             } else {
+                const bool pd = parent_pub.Derive(child_pub, idx);
                 vh::log().obs("unhardened_steps");
                 if (!pd || !(child_pub == child_pub_from_priv)) {
                     vh::log().violation("bip32-public-private-mismatch", "public derivation differs from the public key of private derivation", vh::J().u("index", idx).hex("seed", seed));
